@@ -57,7 +57,12 @@ func (b *backoff) duration() time.Duration {
 	if ms <= 0 {
 		return b.max
 	}
-	return time.Duration(math.Min(float64(ms), float64(b.max)))
+	d := time.Duration(math.Min(float64(ms), float64(b.max)))
+	if d > b.max {
+		// float64(b.max) rounds up for some values above 2^53.
+		d = b.max
+	}
+	return d
 }
 
 func (b *backoff) reset() {
